@@ -642,7 +642,7 @@ def surplusLocal (ops : BatOps α B) (env : StratEnv α) (isCheap : Bool) (v : V
     | .ok (bat', avg) => .ok (some (bat', avg, cs.currentPower + avg))
   else
     if surplus < -env.eps ∧ v.desiredSoc - ops.soc v.bat < -env.eps ∧ v.v2g = true
-        ∧ (sdGet gc.loads csId).getD 0 < env.eps ∧ isCheap = false then
+        ∧ pyabs ((sdGet gc.loads csId).getD 0) < env.eps ∧ isCheap = false then
       match ops.unload v.bat (some (pymin (pymin (-surplus) (ops.unloadMaxPower v.bat)) cs.maxPower))
         (some (pymax v.desiredSoc v.dischargeLimit)) none with
       | .error e => .error e
